@@ -1,4 +1,5 @@
 pub mod grammar;
 pub mod pos;
+pub mod block_scalar;
 pub mod fold;
 pub mod core_schema;
